@@ -15,7 +15,11 @@ CLAIMED = {
  "C06": ("exploration", "exhaustive enumeration of lattice/curved shapes x all lattice and half-lattice query points against a half-open-rule winding oracle",
          "Every shape of the named families (all lattice triangles/quadrilaterals/pentagons incl. degenerate and self-crossing, triangles with one edge replaced by a quadratic/cubic/arc, rectangle nestings in all orientations, open variants) is queried at every lattice and half-lattice point of its bounding box +-1 (exactly the points level with vertices, horizontal edges, curve extremes and tangent rays) and at off-lattice points; Windings, Contains (4 rules), Crossings, the boundary flag, CCW and Filling are compared with the oracle on every query. Complete within the families.",
          "trusted: internal/oracle dense polylines (1024 samples per curve; queries within 2e-5 of a curve skipped and counted); two known findings keyed by predicates computed from the input (ray passes a vertex/extreme -> Crossings parity; open subpath)", "DESIGN.md §3 C06"),
+ "C20": ("model_checking", "stateless model checking of the real code under a hand-written cooperative scheduler (DFS over replayed choice prefixes, iterated preemption and pool-answer deviation bounds), plus a free-running -race pass",
+         "sync is replaced by a shim (verif/vsync) through a build overlay generated from the working tree; 2-3 harness threads each run one library call (boolean ops, Settle, Stroke, DivideBy, LoadFont of a font without name records) on their own inputs; every Pool.Get/Put, OnceFunc, Mutex operation and access to the font-name counter is a scheduling point and every Pool.Get is a data choice (newest/oldest/fresh or any pooled object); all schedules x pool answers within the bounds are enumerated and every call's result is compared bit-for-bit with its run-alone result; sequential pool-dirtying histories followed by a probe are enumerated the same way; a separate -race build runs the same bodies (plus text layout with a shared font, rasterizer, Flatten/Dash/Offset) free-running on all cores.",
+         "trusted: the scheduler (one replay of every violation in a fresh process, divergence = hard error), Go's race detector for unhooked accesses (sampling); granularity = hooked operations; <=3 threads, preemptions <=2, deviations <=2", "DESIGN.md §5 C20"),
 }
+CUSTOM_CMD = {"C20": ("scripts/check_c20.sh quick", "scripts/check_c20.sh thorough")}
 REASON_PENDING = "check not built yet in this session (planned in DESIGN.md §9); not claimed until it exists and is green"
 
 def main():
@@ -34,8 +38,8 @@ def main():
         cat, tech, text, note, ref = CLAIMED[pid]
         checks.append({
             "property_id": pid,
-            "quick_cmd": "scripts/check.sh %s quick" % pid,
-            "thorough_cmd": "scripts/check.sh %s thorough" % pid,
+            "quick_cmd": CUSTOM_CMD.get(pid, ("scripts/check.sh %s quick" % pid,))[0],
+            "thorough_cmd": CUSTOM_CMD.get(pid, (0, "scripts/check.sh %s thorough" % pid))[1],
             "evidence_file": "/verif/evidence/%s.json" % pid,
             "replay_cmd_template": "bin/verif replay {path}",
             "engine": "verif",
